@@ -27,7 +27,7 @@ def cap10(t):
     return (1 if t.signed else 0) + int(t.digits * math.log(2) / math.log(10)) + 1
 
 
-def harness_buf(cname, t, nmax, by_ref=True, base_arg=True, extra_args=''):
+def harness_buf(cname, t, nmax, by_ref=True, base_arg=True, extra_args='', base=10):
     """custom harness: buffer object with symbolic usable length n in [0, nmax]; inputs are globals for the trace"""
     ct = t.ctype
 
@@ -41,7 +41,7 @@ def harness_buf(cname, t, nmax, by_ref=True, base_arg=True, extra_args=''):
                 '  /*PRE*/',
                 '  uint8_t* first = vp_buf;',
                 '  uint8_t* last = vp_buf + vp_in1;',
-                '  %s(first, last, %s%s);' % (fi['cname'], '&vp_in2' if by_ref else 'vp_in2', ', 10' if base_arg else ''),
+                '  %s(first, last, %s%s);' % (fi['cname'], '&vp_in2' if by_ref else 'vp_in2', (', %d' % base) if base_arg else ''),
                 '}']
         return decl, '\n'.join(body)
     return gen
@@ -58,12 +58,12 @@ def natural_contract(t):
         note='digits emitted recursively with an end-of-buffer check: stays inside [ptr,last), returns NULL or a pointer in (ptr,last]')
 
 
-def tochars_contract(t):
+def tochars_contract(t, base=10):
     n = '((uint64_t)(__CPROVER_POINTER_OFFSET(a1) - __CPROVER_POINTER_OFFSET(a0)))'
     ptr, ec = '__CPROVER_return_value.f0', '__CPROVER_return_value.f1'
     off = lambda p: '__CPROVER_POINTER_OFFSET(%s)' % p
     return Contract(
-        requires=['__CPROVER_same_object(a0, a1)', '%s <= %s' % (off('a0'), off('a1')), 'a3 == 10'],
+        requires=['__CPROVER_same_object(a0, a1)', '%s <= %s' % (off('a0'), off('a1')), 'a3 == %d' % base],
         assigns=['__CPROVER_object_upto(a0, %s)' % n],
         ensures=['%s == 0 ==> (__CPROVER_same_object(%s, a0) && %s < %s && %s <= %s)' % (ec, ptr, off('a0'), off(ptr), off(ptr), off('a1')),
                  '%s != 0 ==> (%s == %d && %s == a1)' % (ec, ec, EOVERFLOW, ptr),
@@ -130,10 +130,30 @@ def plan(tier):
                             solvers=('cadical', 'kissat') if t.bits >= 32 else ('minisat',),
                             shim=s2, shim_types=[ts], oracle=lambda v: ('value', py_digits(v)), layer=2,
                             cex_filter=lambda leaves: leaves[-1:]))
+    # other bases: same function, more (base 2) or fewer (base 16) digits than the decimal capacity
+    for ts, base in [('i8', 2), ('u8', 16)] + ([('u16', 2), ('i16', 16), ('i8', 36)] if thorough else []):
+        t = T(ts)
+        nd = 1
+        m = max(abs(t.min), t.max)
+        while m >= base:
+            m //= base
+            nd += 1
+        capb = nd + (1 if t.signed else 0)
+        nmax = capb + 2
+        sname = 'vp_tc_%s_b%d' % (ts, base)
+        src.append('extern "C" long %s(std::uint64_t n, %s v) { char buf[64]; for (auto& c : buf) c = 0x55; char* first = buf + 8; '
+                   'auto r = cnl::to_chars(first, first + n, v, %d); for (int i = 0; i < 64; ++i) if ((i < 8 || i >= 8 + int(n)) && buf[i] != 0x55) return -1; '
+                   'bool ok = (r.ec == std::errc{}) ? (r.ptr > first && r.ptr <= first + n) : (r.ec == std::errc::value_too_large && r.ptr == first + n); return ok ? 1 : 0; }\n'
+                   % (sname, cxx(ts), base))
+        orc = (lambda nmax: lambda n, v: None if n > nmax else ('value', 1))(nmax)
+        jobs.append(Job('%s.L1.to_chars.%s_b%d' % (PROP, ts, base), kname,
+                        r'^auto cnl::to_chars<%s>\(char\*, char\*, %s const&, int\)$' % (dem(ts), dem(ts)),
+                        tochars_contract(t, base), harness=harness_buf(None, t, nmax, base=base), prop=PROP, timeout=600, skip_this=False, inputs=['vp_in1', 'vp_in2'],
+                        shim=sname, shim_types=['u64', ts], oracle=orc, layer=1, unwind=capb + 3, mem_gb=24, note='base %d' % base))
     k = Kernel(kname, ''.join(src), [], 'to_chars')
     meta = {'instantiations': len(jobs),
             'explanation': 'memory-safety as DFCC frame + pointer obligations over a symbolic buffer length; recursion closed inductively',
             'not_applicable_parts': ['scaled_integer / wide to_chars: descale loops (see DESIGN.md C13) -- attempted separately, not claimed here',
                                      'operator<< through iostreams'],
-            'assumptions': ['base fixed to 10 (the default); other bases share the same code path with a different divisor']}
+            'assumptions': ['bases 10, 2 and 16 (quick), 36 in the thorough tier; other bases share the same code path with a different divisor']}
     return {'kernels': [k], 'jobs': jobs, 'meta': meta}
